@@ -477,3 +477,282 @@ Proof.
     unfold n32766. lia.
   - apply lxor_lt16; [apply brun_lt|]; reflexivity.
 Qed.
+
+(* ------------------------------------------------------------------ *)
+(* 6. from the positional description of an error pattern to the structural form *)
+
+Lemma nth_skipn {A} n : forall (l : list A) k d, nth k (skipn n l) d = nth (n + k) l d.
+Proof.
+  induction n as [|n IH]; intros l k d; [reflexivity|].
+  destruct l as [|x l]; [destruct k; reflexivity|]. cbn [skipn Nat.add nth]. apply IH.
+Qed.
+
+Lemma no_true_zeros l : (forall k, nth k l false = true -> False) -> l = zeros (length l).
+Proof.
+  induction l as [|b l IH]; intros H; [reflexivity|].
+  cbn [length]. rewrite zeros_S. f_equal.
+  - destruct b; [exfalso; apply (H O); reflexivity | reflexivity].
+  - apply IH. intros k Hk. apply (H (S k)). exact Hk.
+Qed.
+
+Lemma true_weight l k : nth k l false = true -> weight l <> O.
+Proof.
+  revert k. induction l as [|b l IH]; intros k H.
+  - destruct k; discriminate H.
+  - destruct k as [|k]; cbn [nth] in H.
+    + subst b. cbn [weight]. lia.
+    + cbn [weight]. specialize (IH k H). lia.
+Qed.
+
+Lemma single_structure i : forall l, (forall k, nth k l false = true <-> k = i) ->
+  exists z, l = zeros i ++ true :: zeros z.
+Proof.
+  induction i as [|i IH]; intros l H.
+  - destruct l as [|b l].
+    + exfalso. assert (E : nth 0 (@nil bool) false = true) by (apply H; reflexivity). discriminate E.
+    + exists (length l). cbn [zeros repeat app]. f_equal.
+      * apply (H O). reflexivity.
+      * apply no_true_zeros. intros k Hk. assert (E : S k = O) by (apply H; exact Hk). discriminate E.
+  - destruct l as [|b l].
+    + exfalso. assert (E : nth (S i) (@nil bool) false = true) by (apply H; reflexivity). discriminate E.
+    + destruct (IH l) as [z Hz].
+      * intros k. split; intros Hk.
+        -- assert (E : S k = S i) by (apply H; exact Hk). injection E as E. exact E.
+        -- subst k. apply (H (S i)). reflexivity.
+      * exists z. rewrite zeros_S. cbn [app]. f_equal; [|exact Hz].
+        destruct b; [|reflexivity]. assert (E : O = S i) by (apply H; reflexivity). discriminate E.
+Qed.
+
+Lemma double_structure i : forall j l, (i < j)%nat ->
+  (forall k, nth k l false = true <-> (k = i \/ k = j)) ->
+  exists z, l = zeros i ++ true :: zeros (j - i - 1) ++ true :: zeros z.
+Proof.
+  induction i as [|i IH]; intros j l Hij H.
+  - destruct l as [|b l].
+    + exfalso. assert (E : nth 0 (@nil bool) false = true) by (apply H; left; reflexivity). discriminate E.
+    + destruct (single_structure (j - 1) l) as [z Hz].
+      * intros k. split; intros Hk.
+        -- assert (E : S k = O \/ S k = j) by (apply H; exact Hk). lia.
+        -- apply (H (S k)). lia.
+      * exists z. cbn [zeros repeat app]. f_equal.
+        -- apply (H O). left; reflexivity.
+        -- replace (j - 0 - 1)%nat with (j - 1)%nat by lia. exact Hz.
+  - destruct l as [|b l].
+    + exfalso. assert (E : nth (S i) (@nil bool) false = true) by (apply H; left; reflexivity). discriminate E.
+    + destruct j as [|j]; [lia|].
+      destruct (IH j l) as [z Hz]; [lia| |].
+      * intros k. split; intros Hk.
+        -- assert (E : S k = S i \/ S k = S j) by (apply H; exact Hk). lia.
+        -- apply (H (S k)). lia.
+      * exists z. rewrite zeros_S. cbn [app]. f_equal.
+        -- destruct b; [|reflexivity]. assert (E : O = S i \/ O = S j) by (apply H; reflexivity). lia.
+        -- replace (S j - S i - 1)%nat with (j - i - 1)%nat by lia. exact Hz.
+Qed.
+
+Lemma burst_structure len p : forall l i, nth i l false = true ->
+  (forall k, nth k l false = true -> (p <= k < p + len)%nat) ->
+  exists a w z, l = zeros a ++ w ++ zeros z /\ (length w <= len)%nat /\ weight w <> O.
+Proof.
+  induction p as [|p IH]; intros l i Hi H.
+  - exists O, (firstn len l), (length (skipn len l)). cbn [zeros repeat app].
+    assert (Hz : skipn len l = zeros (length (skipn len l))).
+    { apply no_true_zeros. intros k Hk. rewrite nth_skipn in Hk. apply H in Hk. lia. }
+    splits.
+    + rewrite <- Hz. symmetry. apply firstn_skipn.
+    + apply firstn_le_length.
+    + intros Hw. apply (true_weight l i Hi).
+      rewrite <- (firstn_skipn len l), weight_app, Hw, Hz, weight_zeros. reflexivity.
+  - destruct l as [|b l]; [destruct i; discriminate Hi|].
+    assert (Hb : b = false).
+    { destruct b; [|reflexivity]. specialize (H O eq_refl). lia. }
+    subst b. destruct i as [|i]; [discriminate Hi|].
+    destruct (IH l i Hi) as (a & w & z & E & Hl & Hw).
+    + intros k Hk. specialize (H (S k) Hk). lia.
+    + exists (S a), w, z. splits; [|exact Hl|exact Hw]. rewrite zeros_S. cbn [app]. f_equal. exact E.
+Qed.
+
+(* ------------------------------------------------------------------ *)
+(* 7. detection theorems on frames: m = header and data field as transmitted, followed by
+   its two CRC octets; e = error pattern of the same length *)
+
+Lemma crc16_xor m d : length m = length d ->
+  crc16 (xor_bytes m d) = N.lxor (crc16 m) (crc_run 0 d).
+Proof.
+  intros Hl. rewrite !crc16_run. rewrite <- (N.lxor_0_r mask16) at 1.
+  apply crc_run_lxor. exact Hl.
+Qed.
+
+Lemma crc_run_0_zero_bytes n : crc_run 0 (repeat 0 n) = 0.
+Proof. induction n as [|n IH]; [reflexivity|]. cbn [repeat crc_run fold_left]. exact IH. Qed.
+
+Lemma detect_single m e : is_bytes m -> is_bytes e -> length e = length (m ++ crc_bytes m) ->
+  single_bit_error e -> crc_frame_ok (xor_bytes (m ++ crc_bytes m) e) = false.
+Proof.
+  intros Hm He Hl [i H]. apply crc_detects; try assumption.
+  destruct (single_structure i (bits_of e) H) as [z E]. rewrite E. apply syn_single.
+Qed.
+
+Lemma detect_double m e : is_bytes m -> is_bytes e -> length e = length (m ++ crc_bytes m) ->
+  double_bit_error 32767 e -> crc_frame_ok (xor_bytes (m ++ crc_bytes m) e) = false.
+Proof.
+  intros Hm He Hl (i & j & Hij & Hw & H). apply crc_detects; try assumption.
+  destruct (double_structure i j (bits_of e) Hij H) as [z E]. rewrite E. apply syn_double. lia.
+Qed.
+
+Lemma detect_burst m e : is_bytes m -> is_bytes e -> length e = length (m ++ crc_bytes m) ->
+  burst_error 16 e -> crc_frame_ok (xor_bytes (m ++ crc_bytes m) e) = false.
+Proof.
+  intros Hm He Hl [[i Hi] [p Hp]]. apply crc_detects; try assumption.
+  destruct (burst_structure 16 p (bits_of e) i Hi Hp) as (a & w & z & E & Hw & Hn).
+  rewrite E. apply syn_burst; assumption.
+Qed.
+
+Lemma detect_odd m e : is_bytes m -> is_bytes e -> length e = length (m ++ crc_bytes m) ->
+  odd_weight_error e -> crc_frame_ok (xor_bytes (m ++ crc_bytes m) e) = false.
+Proof.
+  intros Hm He Hl Ho. apply crc_detects; try assumption. apply syn_odd. exact Ho.
+Qed.
+
+Lemma detect_all m e : is_bytes m -> is_bytes e -> length e = length (m ++ crc_bytes m) ->
+  crc16_detectable e -> crc_frame_ok (xor_bytes (m ++ crc_bytes m) e) = false.
+Proof.
+  intros Hm He Hl [H|[H|[H|H]]].
+  - apply detect_single; assumption.
+  - apply detect_double; assumption.
+  - apply detect_burst; assumption.
+  - apply detect_odd; assumption.
+Qed.
+
+(* ------------------------------------------------------------------ *)
+(* 8. the structural form implies the positional one (used for non-vacuity and to show the
+   two descriptions are the same classes) *)
+
+Lemma nth_zeros k n : nth k (zeros n) false = false.
+Proof. apply nth_repeat. Qed.
+
+Lemma nth_zeros_app a l k : nth k (zeros a ++ l) false = true <-> (a <= k)%nat /\ nth (k - a) l false = true.
+Proof.
+  destruct (Nat.lt_ge_cases k a) as [Hk|Hk].
+  - rewrite app_nth1 by (rewrite zeros_length; exact Hk). rewrite nth_zeros.
+    split; [discriminate | intros [H _]; lia].
+  - rewrite app_nth2 by (rewrite zeros_length; exact Hk). rewrite zeros_length.
+    split; [intros H; split; [exact Hk | exact H] | intros [_ H]; exact H].
+Qed.
+
+Lemma nth_true_zeros z k : nth k (true :: zeros z) false = true <-> k = O.
+Proof.
+  destruct k as [|k]; cbn [nth]; [split; reflexivity|].
+  rewrite nth_zeros. split; discriminate.
+Qed.
+
+Lemma single_of_structure e i z : bits_of e = zeros i ++ true :: zeros z -> single_bit_error e.
+Proof.
+  intros E. exists i. intros k. unfold bit_at. rewrite E, nth_zeros_app, nth_true_zeros. lia.
+Qed.
+
+Lemma double_of_structure w e i g z : N.of_nat (g + 1) < w ->
+  bits_of e = zeros i ++ true :: zeros g ++ true :: zeros z -> double_bit_error w e.
+Proof.
+  intros Hw E. exists i, (i + g + 1)%nat. splits; [lia | |].
+  - replace (i + g + 1 - i)%nat with (g + 1)%nat by lia. exact Hw.
+  - intros k. unfold bit_at. rewrite E, nth_zeros_app.
+    destruct (k - i)%nat as [|k'] eqn:Ek.
+    + cbn [nth]. split; [intros [H _]; lia | intros [H|H]; [split; [lia|reflexivity] | lia]].
+    + cbn [nth]. rewrite nth_zeros_app, nth_true_zeros. lia.
+Qed.
+
+Lemma weight_true l : weight l <> O -> exists k, nth k l false = true.
+Proof.
+  induction l as [|b l IH]; intros H; [exfalso; apply H; reflexivity|].
+  destruct b.
+  - exists O. reflexivity.
+  - cbn [weight] in H. destruct (IH ltac:(lia)) as [k Hk]. exists (S k). exact Hk.
+Qed.
+
+Lemma burst_of_structure len e a w z : bits_of e = zeros a ++ w ++ zeros z ->
+  (length w <= len)%nat -> weight w <> O -> burst_error len e.
+Proof.
+  intros E Hl Hw. unfold burst_error, bit_at. rewrite E. split.
+  - destruct (weight_true w Hw) as [k Hk]. exists (a + k)%nat.
+    apply nth_zeros_app. split; [lia|]. replace (a + k - a)%nat with k by lia.
+    assert (Hlt : (k < length w)%nat).
+    { destruct (Nat.lt_ge_cases k (length w)) as [L|L]; [exact L|].
+      rewrite nth_overflow in Hk by exact L. discriminate Hk. }
+    rewrite app_nth1 by exact Hlt. exact Hk.
+  - exists a. intros k Hk. apply nth_zeros_app in Hk as [Ha Hk]. split; [exact Ha|].
+    destruct (Nat.lt_ge_cases (k - a) (length w)) as [L|L]; [lia|].
+    rewrite app_nth2 in Hk by exact L. rewrite nth_zeros in Hk. discriminate Hk.
+Qed.
+
+(* ------------------------------------------------------------------ *)
+(* 9. the receiver: the frame is delimited by the first four octets, which the errors under
+   consideration do not touch *)
+
+Lemma frame_len_header_only b : frame_len_of_header b = frame_len_of_header (firstn 4 b).
+Proof. destruct b as [|b0 [|b1 [|b2 [|b3 r]]]]; reflexivity. Qed.
+
+Lemma crc_flag_header_only b : crc_flag_of_header b = crc_flag_of_header (firstn 4 b).
+Proof. destruct b as [|b0 r]; reflexivity. Qed.
+
+Lemma frame_len_same_header a b : firstn 4 a = firstn 4 b -> frame_len_of_header a = frame_len_of_header b.
+Proof. intros H. rewrite (frame_len_header_only a), (frame_len_header_only b), H. reflexivity. Qed.
+
+Lemma crc_flag_same_header a b : firstn 4 a = firstn 4 b -> crc_flag_of_header a = crc_flag_of_header b.
+Proof. intros H. rewrite (crc_flag_header_only a), (crc_flag_header_only b), H. reflexivity. Qed.
+
+(* same first four octets and enough octets on both sides: the same number of octets is taken *)
+Lemma frame_span_same_header a b f g : firstn 4 a = firstn 4 b ->
+  frame_span a = Some f -> frame_span b = Some g -> length f = length g.
+Proof.
+  unfold frame_span. intros H Ha Hb. rewrite (frame_len_same_header a b H) in Ha.
+  destruct (frame_len_of_header b) as [n|]; [|discriminate Ha].
+  destruct (Nat.leb_spec n (length a)) as [La|La]; [|discriminate Ha].
+  destruct (Nat.leb_spec n (length b)) as [Lb|Lb]; [|discriminate Hb].
+  injection Ha as <-. injection Hb as <-. rewrite !firstn_length. lia.
+Qed.
+
+Lemma xor_untouched_header c e t : length c = length e -> fixed_header_untouched e ->
+  firstn 4 (xor_bytes c e ++ t) = firstn 4 c.
+Proof.
+  unfold fixed_header_untouched. intros Hl H.
+  destruct e as [|e0 [|e1 [|e2 [|e3 e']]]]; try discriminate H.
+  injection H as -> -> -> ->.
+  destruct c as [|c0 [|c1 [|c2 [|c3 c']]]]; try discriminate Hl.
+  cbn [xor_bytes app firstn]. rewrite !N.lxor_0_r. reflexivity.
+Qed.
+
+Section Receiver.
+  (* the decoder of the codec model (Ok p = Some p, any error = None); the only fact used about
+     it is that with the CRC flag set it accepts only if the frame it delimited passes the check *)
+  Variable PDU : Type.
+  Variable decode : list N -> option PDU.
+  Hypothesis decode_checks_crc : forall b p, decode b = Some p -> crc_flag_of_header b = true ->
+    exists f, frame_span b = Some f /\ crc_frame_ok f = true.
+
+  Lemma corrupt_rejected m e t :
+    is_bytes m -> is_bytes e ->
+    crc_flag_of_header m = true ->
+    frame_len_of_header m = Some (length m + 2)%nat ->
+    length e = length (m ++ crc_bytes m) ->
+    fixed_header_untouched e ->
+    crc16_detectable e ->
+    decode (xor_bytes (m ++ crc_bytes m) e ++ t) = None.
+  Proof.
+    intros Hm He Hflag Hlen Hl Hfix Hdet.
+    set (c := m ++ crc_bytes m) in *. set (r := xor_bytes c e).
+    destruct (decode (r ++ t)) as [p|] eqn:D; [exfalso|reflexivity].
+    assert (Hc4 : firstn 4 c = firstn 4 m).
+    { unfold c. destruct m as [|b0 [|b1 [|b2 [|b3 m']]]]; try discriminate Hlen. reflexivity. }
+    assert (H4 : firstn 4 (r ++ t) = firstn 4 m).
+    { unfold r. rewrite xor_untouched_header; [exact Hc4 | symmetry; exact Hl | exact Hfix]. }
+    assert (Hrl : length r = (length m + 2)%nat).
+    { unfold r. rewrite xor_bytes_length by (symmetry; exact Hl).
+      unfold c. rewrite app_length. reflexivity. }
+    destruct (decode_checks_crc (r ++ t) p D) as (f & Hspan & Hok).
+    { rewrite (crc_flag_same_header _ m H4). exact Hflag. }
+    unfold frame_span in Hspan. rewrite (frame_len_same_header _ m H4), Hlen in Hspan.
+    destruct (Nat.leb_spec (length m + 2) (length (r ++ t))) as [L|L]; [|discriminate Hspan].
+    injection Hspan as <-. rewrite <- Hrl, firstn_app_exact in Hok.
+    unfold r, c in Hok. rewrite (detect_all m e Hm He Hl Hdet) in Hok. discriminate Hok.
+  Qed.
+End Receiver.
